@@ -10,6 +10,7 @@ comparisons, `checkHTTP2` / `panicOnHTTP1Client.Do`, the `recover()` of `instanc
 run-time panic sites of the anchored files to the CURRENT source.
 -/
 import Pandora.Proofs.C19
+import Pandora.Proofs.C19Vars
 import Pandora.Bridge.C19
 
 namespace Pandora.Props.C19
@@ -460,6 +461,74 @@ theorem C19_connection_plan_scenario (dka : Bool) (dflt : ConnFate) (plan : List
   obtain ⟨ss, rfl, hss⟩ := hshape n isOpen plan g hg
   exact (C19_sample_and_continue.2.2.1 true scn ss hgf).2 hss
 
+/-! ## round 3: what an earlier RESPONSE stored is read again inside `Shoot` (preprocessors, template functions) -/
+
+/-- Index arithmetic on response-derived lists. For EVERY index kind (`[N]` with any integer, `[next]`, `[rand]`,
+`[last]`, garbage), EVERY list length (empty lists included: `{"items":[]}`, an xpath without matches), every value of
+the shared iterator and every draw of its random generator, `calcIndex` returns — an error or an index INSIDE the
+list — and never panics (no division by zero, no `rand.Intn(0)`, no index -1); the same holds for `calcIndex` of the
+CURRENT source (regenerated statement by statement, `Bridge.C19.calcIndex_eq`); hence no element access of
+`extractFromSlice` leaves its slice, whatever value (of whatever type) the variable holds. -/
+theorem C19_index_in_bounds :
+    (∀ (k : IndexKind) (length : Int) (nextV randRaw : Nat),
+        ∃ r, calcIndex k length nextV randRaw = .ok r ∧ ∀ i, r = some i → 0 ≤ i ∧ i < length) ∧
+    (∀ (indexStr : String) (atoi : Option Int) (length : Int) (nextV randRaw : Nat),
+        ∃ r, Gen.RespGuard.calcIndex indexStr atoi length nextV randRaw = .ok r ∧ ∀ i, r = some i → 0 ≤ i ∧ i < length) ∧
+    (∀ (v : Val) (k : IndexKind) (nextV randRaw : Nat), (extractFromSlice v k nextV randRaw).isOk = true) := by
+  refine ⟨calcIndex_ok, Bridge.C19.calcIndex_in_bounds, ?_⟩
+  intro v k nextV randRaw
+  obtain ⟨r, hr⟩ := extractFromSlice_ok v k nextV randRaw
+  rw [hr]; rfl
+
+/-- Reading variables never panics. For EVERY variable tree (any nesting of maps, lists of any length and element type,
+strings, numbers, nulls — everything a postprocessor can have stored from a response), every path, every iterator:
+`GetMapValue` returns a value or an error; and for every list of preprocessor mappings — paths and calls of
+`randInt` / `randString` / `uuid` with any arguments, looked up in the variables or literal — `Preprocessor.Process`
+returns variables or an error, with the length bound of the CURRENT source (`Gen.RespGuard.maxRandStringLength`):
+a digit string chosen by the peer is never a length `make([]rune, n)` refuses. -/
+theorem C19_vars_no_panic :
+    (∀ (it : Iter) (vars : Fields) (segs : List Seg), (getMapValue it vars segs).isOk = true) ∧
+    (∀ (cnt : Val), (randString (some Gen.RespGuard.maxRandStringLength) cnt).isOk = true) ∧
+    (∀ (f t : Int), (randIntRange f t).isOk = true) ∧
+    (∀ (vars : Fields) (ms : List (String × PreMap)),
+        (preprocess (some Gen.RespGuard.maxRandStringLength) vars ms).isOk = true) := by
+  refine ⟨?_, ?_, ?_, ?_⟩
+  · intro it vars segs
+    obtain ⟨r, hr⟩ := getMapValue_ok it vars segs
+    rw [hr]; rfl
+  · intro cnt
+    obtain ⟨r, hr⟩ := randString_ok _ Bridge.C19.maxRandStringLength_ok cnt
+    rw [hr]; rfl
+  · intro f t
+    obtain ⟨r, hr⟩ := randIntRange_ok f t
+    rw [hr]; rfl
+  · intro vars ms
+    obtain ⟨r, hr⟩ := preprocess_ok _ Bridge.C19.maxRandStringLength_ok vars ms
+    rw [hr]; rfl
+
+/-- A scenario shot whose steps READ what earlier responses stored. For every list of steps — each with its
+preprocessor mappings, its postprocessors, what the target does with its request, the facts of its connection and
+ANY variables its postprocessors extract from that response (`post`: chosen by the peer) — every initial variable state
+and everything the shared iterator hands out: the shot is exactly the shot of the same steps with the variable
+mechanism resolved into the static `prepFails` (a preprocessor that cannot produce its variables is a step that fails
+before anything is sent: one `…|__EMPTY__` sample, the remaining steps skipped) — so `C19_scenario_samples` and
+`C19_pool` apply to it —, resolving changes nothing else of a step, and the shot panics only in the documented fatal
+configuration (never for the http/scenario gun). -/
+theorem C19_scenario_vars (h2 : Bool) (scn : String) (s : VarState) (steps : List VStep) :
+    let cap := some Gen.RespGuard.maxRandStringLength
+    shootScenarioV cap h2 scn s steps = (GunShot.scenario h2 scn (resolveV cap h2 s steps)).run ∧
+    (resolveV cap h2 s steps).map (fun p => (p.1.name, p.1.pps, p.2)) =
+      steps.map (fun v => (v.cfg.name, v.cfg.pps, v.facts, v.reply)) ∧
+    (shootScenarioV cap h2 scn s steps).panicked = (GunShot.scenario h2 scn (resolveV cap h2 s steps)).documentedFatal ∧
+    (h2 = false → (shootScenarioV cap h2 scn s steps).panicked = false) := by
+  have heq := shootScenarioV_eq _ Bridge.C19.maxRandStringLength_ok h2 scn steps s
+  refine ⟨heq, resolveV_shape _ h2 steps s, ?_, ?_⟩
+  · rw [heq]; exact run_panicked_iff _
+  · intro h
+    rw [heq, run_panicked_iff]
+    subst h
+    exact scenarioFatal_false _
+
 /-! ## the defects of the tree as found (what the two fixes repair) -/
 
 /-- `substr(5)` on a 3-byte header value: the closure as found slices `in[3:5]` and panics. -/
@@ -476,6 +545,33 @@ theorem C19_as_found_counterexample :
       [.varHeader [⟨"X-Val", some [.substr 5 0]⟩]], by decide⟩, ?_, by decide⟩
   intro r
   simp [runPPsAsFound, runPPAsFound, xpathUnchecked]
+
+/-- The emptiness guard of `calcIndex` has to stand in front of the KEYWORD branches: with the guard in the numeric
+branch only (in front of the modulo it seems to be there for), an EMPTY list in a response — `{"items":[]}` — makes
+`[next]` divide by zero, `[rand]` call `rand.Intn(0)` and `[last]` index -1, each a panic inside `Shoot`. -/
+theorem C19_index_guard_needed :
+    (∀ nextV randRaw : Nat,
+      calcIndexGuardNumericOnly .next 0 nextV randRaw = .panic "integer divide by zero" ∧
+      calcIndexGuardNumericOnly .rand 0 nextV randRaw = .panic "invalid argument to Intn" ∧
+      calcIndexGuardNumericOnly .last 0 nextV randRaw = .ok (some (-1))) ∧
+    (∀ k ∈ [IndexKind.next, .rand, .last],
+      (getMapValueWith calcIndexGuardNumericOnly ({} : Iter) 0 [("items", .list true [])] [⟨"items", some k⟩]).isOk = false) := by
+  refine ⟨calcIndexGuardNumericOnly_empty, ?_⟩
+  decide
+
+/-- `randString` as found (before fixes/C19-randstring-cap.diff) has no bound on its length: a digit string the peer
+sends (a header value stored by var/header, handed to `randString(request.<step>.postprocessor.<var>)` by the next
+step's preprocessor) is a length `make([]rune, n)` refuses — a panic inside `Shoot`, and the pool fails. -/
+theorem C19_randString_as_found_panics :
+    randString none (.str "99999999999999999") = .panic "makeslice: len out of range" ∧
+    (shootScenarioV none false "s" {}
+      [{ cfg := ⟨"a", false, []⟩, reply := .full ⟨200, fun _ => [], 0, fun _ => false, false, fun _ => false⟩,
+         post := [("v", .str "99999999999999999")] },
+       { cfg := ⟨"b", false, []⟩, reply := .full ⟨200, fun _ => [], 0, fun _ => false, false, fun _ => false⟩,
+         pre := [("x", .call .randString [⟨[⟨"request", none⟩, ⟨"a", none⟩, ⟨"postprocessor", none⟩, ⟨"v", none⟩],
+                                          "request.a.postprocessor.v", {}⟩])] }]).panicked = true ∧
+    (instanceRun [{ reports := [⟨"s.a", 0, 200, 0⟩], panicked := true }]).result = .poolFailed := by
+  refine ⟨randString_as_found_panics, by decide, by decide⟩
 
 /-! ## non-vacuity -/
 
@@ -572,5 +668,29 @@ example : (instanceRun ((scenarioShotsOverConns true .h2 true "s"
        (⟨"b", false, []⟩, .full ⟨404, fun _ => [], 0, fun _ => false, false, fun _ => false⟩)] 2 false
       [.h2, .fails {}]).map GunShot.run)).samples
     = [⟨"s.a", 0, 200, 0⟩, ⟨"s.b|__EMPTY__", 0, 0, 999⟩, ⟨"s.a", 0, 200, 0⟩, ⟨"s.b", 0, 404, 0⟩] := by decide
+
+-- round 3: index kinds over lists of length 0, 1, n
+example : calcIndex .next 3 7 0 = .ok (some 1) ∧ calcIndex .next 0 7 0 = .ok none ∧ calcIndex .last 1 0 0 = .ok (some 0) ∧
+    calcIndex (.num (-1)) 3 0 0 = .ok (some 2) ∧ calcIndex (.num 5) 3 0 0 = .ok (some 2) ∧ calcIndex .rand 4 0 11 = .ok (some 3) ∧
+    calcIndex .rand 0 0 11 = .ok none ∧ calcIndex .bad 3 0 0 = .ok none := by decide
+example : Gen.RespGuard.calcIndex "next" none 0 0 0 = .ok none ∧ Gen.RespGuard.calcIndex "-7" (some (-7)) 3 0 0 = .ok (some 2) := by decide
+-- a two-step scenario: the first response stores an EMPTY list, the second step's preprocessor takes `v[next]`:
+-- one completed sample, one failed step, no panic; with one element the second step is sent
+example : shootScenarioV (some Gen.RespGuard.maxRandStringLength) false "s" {}
+      [{ cfg := ⟨"a", false, []⟩, reply := .full ⟨200, fun _ => [], 0, fun _ => false, false, fun _ => false⟩,
+         post := [("v", .list true [])] },
+       { cfg := ⟨"b", false, []⟩, reply := .full ⟨404, fun _ => [], 0, fun _ => false, false, fun _ => false⟩,
+         pre := [("x", .path [⟨"request", none⟩, ⟨"a", none⟩, ⟨"postprocessor", none⟩, ⟨"v", some .next⟩] {})] }]
+    = { reports := [⟨"s.a", 0, 200, 0⟩, ⟨"s.b|__EMPTY__", 0, 0, 999⟩], panicked := false } := by decide
+example : shootScenarioV (some Gen.RespGuard.maxRandStringLength) false "s" {}
+      [{ cfg := ⟨"a", false, []⟩, reply := .full ⟨200, fun _ => [], 0, fun _ => false, false, fun _ => false⟩,
+         post := [("v", .list true [.str "e0"])] },
+       { cfg := ⟨"b", false, []⟩, reply := .full ⟨404, fun _ => [], 0, fun _ => false, false, fun _ => false⟩,
+         pre := [("x", .path [⟨"request", none⟩, ⟨"a", none⟩, ⟨"postprocessor", none⟩, ⟨"v", some .last⟩] {})] }]
+    = { reports := [⟨"s.a", 0, 200, 0⟩, ⟨"s.b", 0, 404, 0⟩], panicked := false } := by decide
+-- the repaired randString: the same digit string is an error, a small one a string
+example : randString (some Gen.RespGuard.maxRandStringLength) (.str "99999999999999999") = .ok false ∧
+    randString (some Gen.RespGuard.maxRandStringLength) (.str "12") = .ok true ∧
+    randString (some Gen.RespGuard.maxRandStringLength) (.other "1.5" none) = .ok false := by decide
 
 end Pandora.Props.C19
